@@ -158,7 +158,7 @@ let () =
     (render_result (K.print_cmd true (decode_journal j)), "ok"));
   register "core.check" (fun inp _obs ->
     let (_, j) = split_input inp in
-    match K.check_cmd true (decode_journal j) with
+    match K.check_cmd_fixed (decode_journal j) with
     | K.COk _ -> ("OK", "ok")
     | K.CErr (k, d) -> ("ERR " ^ string_of_str k ^ " " ^ string_of_str d, "ok")
     | K.CPanic m -> ("PANIC " ^ string_of_str m, "ok"))
